@@ -84,6 +84,7 @@ class Expect:
         self.fault_paths: List[tuple] = []
         self.is_async = False
         self.setup_only = False
+        self.setup_optional: Set[tuple] = set()
         self.note = ""
 
 
@@ -517,9 +518,14 @@ class HistoryModel:
             self.inst[op["as"]] = ns
             self.expect[key] = Expect("none")
         elif k == "gather":
+            pre = {cl["inst"]: set(self.inst[cl["inst"]].setup_memo) for cl in op["calls"] if cl["inst"] in self.inst}
             for j, cl in enumerate(op["calls"]):
                 kk = (c, i, j)
                 ex = self._call_expect(kk, cl["inst"], [lit(a) for a in cl["args"]])
+                if len(op["calls"]) > 1 and ex.status:
+                    # concurrent first executions: a setup node recorded by a sibling await of the same gather may or may not
+                    # run again in this one (its result is recorded once; the value is the same)
+                    ex.setup_optional = {p_ for p_, s_ in ex.status.items() if s_ == "memo" and p_ not in pre.get(cl["inst"], set())}
                 if op.get("cancel") and op["cancel"]["idx"] == j:
                     ex.kind = "any"
                     ex.note = "cancelled"
